@@ -807,6 +807,75 @@ def _widened_operands(key):
     return wide(lhs) and wide(rhs)
 
 
+def _dominating_conds(fn_node, target_pred):
+    """conditions that hold at a node: conjuncts of the conditions of enclosing `if` (then-branch) / `while` and of enclosing match-arm
+    guards. Returns a list (one entry per matching target node) of lists of comparison nodes."""
+    found = []
+
+    def conj(c, out):
+        if isinstance(c, dict) and c.get("k") == "bin" and c.get("op") == "&&":
+            conj(c["a"], out)
+            conj(c["b"], out)
+        elif isinstance(c, dict) and c.get("k") == "paren":
+            conj(c["e"], out)
+        elif isinstance(c, dict):
+            out.append(c)
+
+    def rec(n, conds):
+        if isinstance(n, list):
+            for v in n:
+                rec(v, conds)
+            return
+        if not isinstance(n, dict):
+            return
+        if target_pred(n):
+            found.append(list(conds))
+        k = n.get("k")
+        if k == "if":
+            rec(n.get("c"), conds)
+            extra = []
+            conj(n.get("c"), extra)
+            rec(n.get("t"), conds + extra)
+            rec(n.get("e"), conds)
+            return
+        if k == "while":
+            extra = []
+            conj(n.get("c"), extra)
+            rec(n.get("c"), conds)
+            rec(n.get("b"), conds + extra)
+            return
+        if k == "arm":
+            extra = []
+            if n.get("guard") is not None:
+                conj(n["guard"], extra)
+                rec(n["guard"], conds)
+            rec(n.get("pat"), conds)
+            rec(n.get("body"), conds + extra)
+            return
+        if k == "closure":
+            # a closure body runs later: the enclosing conditions still held when it was created only if it is called in place; keep them
+            pass
+        for kk, v in n.items():
+            if isinstance(v, (dict, list)):
+                rec(v, conds)
+    rec(fn_node, [])
+    return found
+
+
+def _sub_guarded(a_src, b_src, conds):
+    """does one of the conditions say a >= b (for unsigned operands)?"""
+    a, b = a_src.replace(" ", ""), b_src.replace(" ", "")
+    for c in conds:
+        if c.get("k") != "bin":
+            continue
+        l, r, op = vf.src(c["a"]).replace(" ", ""), vf.src(c["b"]).replace(" ", ""), c["op"]
+        if (op in (">", ">=") and l == a and r == b) or (op in ("<", "<=") and l == b and r == a):
+            return True
+        if b in ("1", "1usize") and ((op == ">" and l == a) or (op == "<" and r == a) or (op == ">=" and l == a and r not in ("0", "0usize")) or (op == "!=" and l == a and r in ("0", "0usize"))):
+            return True     # a > x (unsigned x) or a != 0 gives a >= 1
+    return False
+
+
 def r_arith(ctx):
     rid = "C05.arith"
     ctx.rule(rid, "every integer/float arithmetic expression (+ - * << and their assigning forms) in non-test code of the cddl crate is in the "
@@ -852,6 +921,25 @@ def r_arith(ctx):
             ctx.violation(rid, key + "|count", file, line, "%d occurrences of this expression, %d reviewed (class %s)" % (n, ent.get("count", 1), ent["class"]))
         elif ent["class"] == "unchecked-value":
             ctx.violation(rid, key, file, line, "unchecked arithmetic on a document/schema number: %s" % ent["why"])
+        elif ent.get("guard") == "comparison" and ARITH_TOP.get(key, ("", ""))[0] == "-":
+            # reviewed as safe because a comparison of the two operands dominates the subtraction: the comparison has to be there still
+            fq = key.split("|")[1]
+            expr = key.split("|", 2)[2]
+            ok, seen_site = False, False
+            for fi in ctx.facts.fns(file):
+                if fi.qual != fq or fi.in_test:
+                    continue
+                for conds in _dominating_conds(fi.node, lambda n: n.get("k") == "bin" and n.get("op") == "-" and vf.src(n)[:90] == expr):
+                    seen_site = True
+                    rhs = ARITH_TOP[key][1]
+                    lhs = expr[:len(expr) - len(rhs) - 1]
+                    ok = _sub_guarded(lhs, rhs, conds)
+                    if not ok:
+                        break
+            if seen_site and not ok:
+                ctx.violation(rid, key + "|guard", file, line, "the unsigned subtraction `%s` was reviewed as safe because a comparison of its operands "
+                              "dominates it (%s); no enclosing if / match-arm guard compares them that way any more, so it underflows (panic in "
+                              "overflow-checked builds, a huge repeat count otherwise) when the right operand is larger" % (expr, ent["why"]))
 
 
 
